@@ -27,16 +27,25 @@ def run(ctx):
     files = ["hypergraphx/readwrite/save.py", "hypergraphx/readwrite/load.py", "hypergraphx/readwrite/hif.py"]
     ctx.add_sites(res, ctx.sites(rules=("C-SIG", "K-ARG", "K-KEY"), files=files))
     eff = Effects(ctx)
-    check_pure(ctx, eff, res, "save.save_hypergraph", roots=("hypergraph",))
-    check_pure(ctx, eff, res, "save._save_pickle", roots=("obj",))
-    check_pure(ctx, eff, res, "hif.write_hif", roots=("H",))
+    with res.guard("check_purectx, eff, res, save.save_hypergraph, rootshypergraph,"):
+        check_pure(ctx, eff, res, "save.save_hypergraph", roots=("hypergraph",))
+    with res.guard("check_purectx, eff, res, save._save_pickle, rootsobj,"):
+        check_pure(ctx, eff, res, "save._save_pickle", roots=("obj",))
+    with res.guard("check_purectx, eff, res, hif.write_hif, rootsH,"):
+        check_pure(ctx, eff, res, "hif.write_hif", roots=("H",))
     for cls in ("Hypergraph", "DirectedHypergraph", "TemporalHypergraph", "MultiplexHypergraph"):
-        check_pure(ctx, eff, res, f"{cls}.expose_data_structures", roots=("self",))
-    S.check_json_schema(ctx, res)
-    S.check_reserved_win(ctx, res)
-    S.check_load_args(ctx, res)
-    S.check_pickle(ctx, res)
-    S.check_hgr(ctx, res)
+        with res.guard("check_purectx, eff, res, fcls.expose_data_structures, rootsself,"):
+            check_pure(ctx, eff, res, f"{cls}.expose_data_structures", roots=("self",))
+    with res.guard("S.check_json_schemactx, res"):
+        S.check_json_schema(ctx, res)
+    with res.guard("S.check_reserved_winctx, res"):
+        S.check_reserved_win(ctx, res)
+    with res.guard("S.check_load_argsctx, res"):
+        S.check_load_args(ctx, res)
+    with res.guard("S.check_picklectx, res"):
+        S.check_pickle(ctx, res)
+    with res.guard("S.check_hgrctx, res"):
+        S.check_hgr(ctx, res)
     res.assumptions += [
         "JSON representability of labels / metadata and the tokenisation of .hgr lines are not decided",
         "the HIF reader is checked for call conformance only (see the known finding on directed HIF documents)",
